@@ -117,6 +117,13 @@ def run_case(rs, ctx):
                {"op": "predict_expectations", "X": q}, {"op": "predict", "X": q}] + \
             [o for o in ops[1:] if o["op"] in ("predict", "predict_expectations", "partial_fit")]
         ops = [o for o in ops if not (o["op"] == "partial_fit" and any(a not in cfg["arms"] + [new] for a in o["d"]))]
+    if l == "lints" and rs.integers(2):
+        # hostile contexts: huge, nearly collinear columns (raw epoch seconds): the sampling covariance is numerically
+        # indefinite, whatever the library does then (raise or fall back) must be the same in every execution
+        cfg["lp"]["scale"] = False
+        for o in ops:
+            if o.get("X") is not None:
+                o["X"] = [[1.7e9 + 97.0 * j + float(v) * float(rs.integers(1, 200)) for j, v in enumerate(row)] for row in o["X"]]
     others = [gen_other(rs, cfg, same_kind=(j < 2)) for j in range(int(rs.integers(3, 6)))]
     wit = {"cfg": cfg, "ops": ops, "others": [{"cfg": o["cfg"], "ops": [gen.short(x) for x in o["ops"]],
                                                 "reuse_policy_objects": o["reuse_policy_objects"]} for o in others]}
